@@ -9,7 +9,7 @@ import math
 from dataclasses import dataclass, field
 from typing import Any
 
-from .harness import NONRETRY, Env, describe_final, g, split_calls
+from .harness import NONRETRY, Env, Scripted, describe_final, g, split_calls
 
 BREAKER_EVENTS = {"circuit_opened", "circuit_half_open", "circuit_closed", "circuit_rejected"}
 TERMINAL_BY_REASON = {
@@ -86,6 +86,8 @@ def script_entry(call: dict, i: int) -> dict:
     script = call.get("script") or []
     if not script:
         return {"dur": 0, "kind": "ok"}
+    if call.get("cycle"):
+        return script[i % len(script)]
     return script[i] if i < len(script) else script[-1]
 
 
@@ -144,7 +146,7 @@ def ending(cv: CallView) -> dict:
     if f["idx"] is not None:
         x = cv.objs[f["idx"]]
         k = getattr(x, "klass", None)
-        if t in ("ScriptExc", "ScriptCircuitOpen"):
+        if isinstance(x, Scripted):
             return {"kind": "fail", "mode": "call", "reason": None, "cause": "exception", "exc_idx": f["idx"], "raised": True}
         return {"kind": "propagate", "type": t, "idx": f["idx"], "klass": k}
     if t == "RetryExhaustedError":
@@ -609,8 +611,10 @@ def c04(case: dict, cv: CallView, out: list) -> dict:
         return info
     if not failed(case, a):
         return info
-    if end["kind"] in ("abort", "other", "propagate", "circuit_open"):
+    if end["kind"] in ("abort", "propagate", "circuit_open"):
         return info
+    if end["kind"] == "other" and any(e[0] == "fault" for e in cv.events):
+        return info  # an injected callback fault escaped: not this property's subject
     deferred = deferred_delay(cv)
     cause = "exception" if a.kind in ("exc", "copen") else "result"
     if cause == "exception" and deferred is None:
@@ -765,7 +769,7 @@ def c05(case: dict, cv: CallView, out: list) -> dict:
         if prev_seen != prev:
             out.append(("C05:ctx-prev-sleep", f"strategy saw prev_sleep_s={prev_seen!r}, previously applied delay was {prev!r}"))
         rem_ticks = D - a.t_end
-        if style != "legacy":
+        if style not in ("legacy", "legacy_defaults"):
             want_cause = "exception" if a.kind in ("exc", "copen") else "result"
             if cause != want_cause:
                 out.append(("C05:ctx-cause", f"strategy saw cause={cause!r} for a {want_cause} failure"))
